@@ -4,3 +4,51 @@
 // ---------------------------------------------------------------------------------------------
 pub assume_specification<'a, T: Copy>[ Option::<&'a T>::copied ](o: Option<&'a T>) -> (r: Option<T>)
     ensures r == (match o { Some(x) => Some(*x), None => None::<T> });
+
+// ---- Cow<[u8]> ----
+pub uninterp spec fn cow_target<'a, 'b, B: ?Sized + ToOwned>(c: &'b Cow<'a, B>) -> &'b B;
+pub assume_specification<'a, 'b, B: ?Sized + ToOwned>[ <Cow<'a, B> as core::ops::Deref>::deref ](c: &'b Cow<'a, B>) -> (r: &'b B)
+    ensures r == cow_target(c);
+/// dereferencing a Cow<[u8]> gives the bytes it holds (std: Deref for Cow)
+pub axiom fn axiom_cow_bytes<'a>(c: &Cow<'a, [u8]>)
+    ensures cow_target(c)@ == c@;
+pub assume_specification<'a, T: Clone>[ <Cow<'a, [T]> as From<&'a [T]>>::from ](s: &'a [T]) -> (r: Cow<'a, [T]>)
+    ensures r == Cow::<'a, [T]>::Borrowed(s);
+pub assume_specification<'a, T: Clone>[ <Cow<'a, [T]> as From<Vec<T>>>::from ](v: Vec<T>) -> (r: Cow<'a, [T]>)
+    ensures r == Cow::<'a, [T]>::Owned(v);
+
+// ---- Result / Cow<str> helpers used on error paths (values uninterpreted) ----
+pub uninterp spec fn spec_unwrap_or_default<T, E>(r: core::result::Result<T, E>) -> T;
+pub assume_specification<T: Default, E>[ core::result::Result::<T, E>::unwrap_or_default ](r: core::result::Result<T, E>) -> (v: T)
+    ensures v == spec_unwrap_or_default(r), r matches Ok(t) ==> v == t;
+pub uninterp spec fn spec_cow_into_owned<'a, B: ?Sized + ToOwned>(c: Cow<'a, B>) -> <B as ToOwned>::Owned;
+pub assume_specification<'a, B: ?Sized + ToOwned>[ Cow::<'a, B>::into_owned ](c: Cow<'a, B>) -> (v: <B as ToOwned>::Owned)
+    ensures v == spec_cow_into_owned(c);
+
+// ---- slices ----
+pub uninterp spec fn spec_pattern<T, P: core::slice::SlicePattern<Item = T> + ?Sized>(p: &P) -> Seq<T>;
+/// an array used as a slice pattern stands for its elements (std: SlicePattern for [T; N])
+pub axiom fn axiom_pattern_array<T, const N: usize>()
+    ensures forall|a: &[T; N]| #[trigger] spec_pattern::<T, [T; N]>(a) == a@;
+pub assume_specification<'a, T: PartialEq, P: core::slice::SlicePattern<Item = T> + ?Sized>[ <[T]>::strip_suffix ](s: &'a [T], suffix: &P) -> (r: Option<&'a [T]>)
+    ensures ({
+        let x = spec_pattern::<T, P>(suffix);
+        let ends = x.len() <= s@.len() && forall|i: int| 0 <= i < x.len() ==> s@[s@.len() - x.len() + i] == x[i];
+        match r {
+            Some(p) => ends && p@ == s@.subrange(0, s@.len() - x.len()),
+            None => !ends,
+        }
+    });
+pub uninterp spec fn spec_items<'a, T: 'a, I: IntoIterator<Item = &'a T>>(i: I) -> Seq<T>;
+pub assume_specification<'a, T: Copy + 'a, A: core::alloc::Allocator, I: IntoIterator<Item = &'a T>>[ <Vec<T, A> as Extend<&'a T>>::extend ](v: &mut Vec<T, A>, i: I)
+    ensures final(v)@ == old(v)@ + spec_items::<T, I>(i);
+/// extending from a slice appends its elements (std: Extend<&T> for Vec<T>)
+pub axiom fn axiom_items_slice<T>()
+    ensures forall|s: &[T]| #[trigger] spec_items::<T, &[T]>(s) == s@;
+pub uninterp spec fn ascii_lower(b: u8) -> u8;
+pub assume_specification[ <[u8]>::eq_ignore_ascii_case ](a: &[u8], b: &[u8]) -> (r: bool)
+    ensures r == (a@.len() == b@.len() && forall|i: int| 0 <= i < a@.len() ==> ascii_lower(a@[i]) == ascii_lower(b@[i]));
+
+pub assume_specification<T, U, F: FnOnce(T) -> U>[ Option::<T>::map_or ](o: Option<T>, default: U, f: F) -> (r: U)
+    requires o matches Some(t) ==> f.requires((t,)),
+    ensures match o { Some(t) => f.ensures((t,), r), None => r == default };
